@@ -418,6 +418,13 @@ def random_ast(rng, n_nodes, max_depth=3, p_branch=0.35, p_bond=0.3, n_rings=0, 
         return chain
 
     ast = make_chain(0, n_nodes)
+    # the very same annotated node text more than once in one string (and, over a run, in many strings)
+    flat_ = _flat(ast)
+    annotated_ = [e for e, _, _, _ in flat_ if e.get('annot')]
+    if annotated_ and len(flat_) >= 2 and rng.random() < 0.35:
+        src_ = rng.choice(annotated_)
+        for dst_ in rng.sample([e for e, _, _, _ in flat_], min(len(flat_), rng.choice([1, 2]))):
+            dst_['name'], dst_['annot'], dst_['attrs'] = src_['name'], src_['annot'], copy.deepcopy(src_.get('attrs'))
     # bond symbols directly after a node multiplier are valid grammar but a separate feature
     if n_rings:
         add_rings(rng, ast, n_rings, orders=orders, p_bond=p_bond, p_pct=p_pct)
